@@ -194,9 +194,13 @@ func openSQL(sim *simrt.Sim, dir, journal string, memory bool, maxConns int, see
 		return nil, fmt.Errorf("migrate: %w", err)
 	}
 	// the xxhash seed row is created from the run seed (the code's own load path
-	// then uses it); on reopen the row is already there
-	if _, err := db.ExecContext(ctx, "insert or ignore into xxhash_seed (seed) select ? where not exists (select 1 from xxhash_seed)", seed); err != nil {
-		return nil, fmt.Errorf("seed row: %w", err)
+	// then uses it); on reopen the row is already there. With seed 0 the row is
+	// left to the code's own creation path (math/rand, deterministic in simulator
+	// processes through GODEBUG=randautoseed=0).
+	if seed != 0 {
+		if _, err := db.ExecContext(ctx, "insert or ignore into xxhash_seed (seed) select ? where not exists (select 1 from xxhash_seed)", seed); err != nil {
+			return nil, fmt.Errorf("seed row: %w", err)
+		}
 	}
 	got, err := mocsqlite.VerifSetOrLoadSeed(ctx, db)
 	if err != nil {
@@ -277,6 +281,9 @@ func (sqlEngine) Gen(t *rapid.T, tier string) any {
 	c.Journal = rapid.SampledFrom([]string{"DELETE", "WAL"}).Draw(t, "journal")
 	c.MaxConns = rapid.IntRange(1, 3).Draw(t, "maxconns")
 	c.Seed = uint32(rapid.Uint32().Draw(t, "xxseed"))
+	if rapid.IntRange(0, 3).Draw(t, "ownseed") == 0 {
+		c.Seed = 0
+	}
 	if c.Mode == "handler" {
 		c.BulkNum = rapid.IntRange(1, 3).Draw(t, "bulk")
 		c.Sessions = rapid.IntRange(1, 3).Draw(t, "sessions")
